@@ -10,6 +10,7 @@
 -/
 import PolyVerif.Model.Splat
 import PolyVerif.Lemmas.Splat
+import PolyVerif.Lemmas.Spz
 import PolyVerif.Lemmas.RealScalar
 import Mathlib.Analysis.SpecialFunctions.Log.Basic
 import Mathlib.Tactic
@@ -186,6 +187,87 @@ example (o : ℝ) : 0 ≤ exEnv.exp (-o) := (Real.exp_pos _).le
 example : ∃ c : ℝ, 0 ≤ c * exEnv.shC0 + 1 / 2 ∧ c * exEnv.shC0 + 1 / 2 ≤ 1 ∧ c ≠ 0 :=
   ⟨1, by simp only [exEnv]; norm_num⟩
 example : (-1 : ℝ) ≤ 1 ∧ (1 : ℝ) ≤ 1 := by norm_num
+
+/-! ## Part 2 — SPZ -/
+
+section spz
+open Spz
+
+/-- header.go:254-262: the assembled and sign-extended word, read as `int32`, is the two's-complement
+    value of the three bytes (little endian) — for all 2^24 byte triples -/
+theorem sign_extend_24 (b0 b1 b2 : BitVec 8) :
+    (fixed24Word b0 b1 b2).toInt =
+      let v : Int := b0.toNat + 256 * b1.toNat + 65536 * b2.toNat
+      if v < 2 ^ 23 then v else v - 2 ^ 24 :=
+  Spz.sign_extend_24 b0 b1 b2
+
+/-- version-2 positions over the reals: for every fractional-bit count up to 62 (where Go's
+    `1 << fractionalBits` is the positive power of two) the coordinate is `value / 2^fb` -/
+theorem spz_fixed_point_value (E : Spz.Env ℝ) (hE : ∀ z : Int, E.ofInt z = (z : ℝ)) (fb : Nat) (hfb : fb ≤ 62)
+    (b0 b1 b2 : UInt8) :
+    fixedCoord E fb b0 b1 b2 =
+      (let v : Int := b0.toNat + 256 * b1.toNat + 65536 * b2.toNat
+       ((if v < 2 ^ 23 then v else v - 2 ^ 24 : Int) : ℝ)) / 2 ^ fb := by
+  have hs := Spz.sign_extend_24 b0.toBitVec b1.toBitVec b2.toBitVec
+  simp only [fixedCoord, fixed24, posScale, hE, shl1, natF, if_pos (show fb < 63 by omega)]
+  simp only [UInt8.toNat_toBitVec] at hs
+  rw [hs]
+  push_cast
+  rw [mul_one_div]
+
+/-- SPZ decode of a stream built to the published layout: for every header in range that `Validate`
+    accepts (version 1–2, any point count up to the limit, SH degree 0–3, ANY fractional-bit count and
+    flags) and every byte pattern in the records, attribute `X` of splat `i` of the result is the
+    dequantisation of record `i`; every attribute array has one entry per record and there is one SH
+    array per coefficient.  Trailing bytes after the last array are ignored. -/
+theorem spz_decode_refEncode {α : Type} [Scalar α] (E : Spz.Env α) (h : Header) (hr : h.inRange)
+    (hv : h.valid = true) (ps : List Packed) (hn : ps.length = h.numPoints) (hf : ∀ p ∈ ps, p.fits h)
+    (extra : List UInt8) :
+    ∃ c, Spz.read E (refEncode h ps ++ extra) = .ok c ∧
+      c.positions = ps.map (fun p => (dequant E h p).pos) ∧
+      c.alphas = ps.map (fun p => (dequant E h p).alpha) ∧
+      c.colors = ps.map (fun p => (dequant E h p).color) ∧
+      c.scales = ps.map (fun p => (dequant E h p).scale) ∧
+      c.rotations = ps.map (fun p => (dequant E h p).rot) ∧
+      c.sh = (List.range (shDim h.shDegree)).map (fun d => ps.map fun p => shCoef p d) ∧
+      (∀ p ∈ ps, (dequant E h p).sh = (List.range (shDim h.shDegree)).map (shCoef p)) := by
+  refine ⟨decode E ⟨h, ps.flatMap (·.pos), ps.map (·.alpha), ps.flatMap (·.color), ps.flatMap (·.scale),
+    ps.flatMap (·.rot), ps.flatMap (·.sh)⟩, ?_, ?_, ?_, ?_, ?_, ?_, ?_, fun _ _ => rfl⟩
+  · simp only [Spz.read, readRaw_refEncode h hr hv ps hn hf extra, Except.map]
+  · exact decodePositions_eq E h ps hn (fun p hp => (hf p hp).1)
+  · simp only [decode, ← hn]; exact decodeAlphas_eq ps
+  · simp only [decode, ← hn]; exact decodeColors_eq ps (fun p hp => (hf p hp).2.1)
+  · simp only [decode, ← hn]; exact decodeScales_eq ps (fun p hp => (hf p hp).2.2.1)
+  · simp only [decode, ← hn]; exact decodeRotations_eq ps (fun p hp => (hf p hp).2.2.2.1)
+  · simp only [decode, ← hn]; exact decodeSh_eq ps _ (fun p hp => (hf p hp).2.2.2.2)
+
+/-- payload length formula: `16 + n·(9|6 + 1 + 3 + 3 + 3 + 3·dim)`, and the decoder accepts exactly
+    streams at least that long -/
+theorem spz_lengths (h : Header) (ps : List Packed) (hn : ps.length = h.numPoints) (hf : ∀ p ∈ ps, p.fits h) :
+    (refEncode h ps).length = payloadLength h ∧
+    payloadLength h = 16 + h.numPoints * (posBytes h + 1 + 3 + 3 + 3 + 3 * shDim h.shDegree) := by
+  constructor
+  · simp only [refEncode, List.length_append, encHeader_length, List.length_flatten, List.map_cons, List.map_nil,
+      List.length_map, List.sum_cons, List.sum_nil, payloadLength, arraySizes,
+      flatMap_length_const ps (·.pos) (posBytes h) (fun p hp => (hf p hp).1),
+      flatMap_length_const ps (·.color) 3 (fun p hp => (hf p hp).2.1),
+      flatMap_length_const ps (·.scale) 3 (fun p hp => (hf p hp).2.2.1),
+      flatMap_length_const ps (·.rot) 3 (fun p hp => (hf p hp).2.2.2.1),
+      flatMap_length_const ps (·.sh) (3 * shDim h.shDegree) (fun p hp => (hf p hp).2.2.2.2), hn, Nat.mul_assoc]
+  · simp only [payloadLength, arraySizes, List.sum_cons, List.sum_nil]; ring
+
+/-- a version-2, degree-1 header with 12 fractional bits and one record of arbitrary bytes -/
+def exHeader : Header := ⟨magicNum, 2, 1, 1, 12, 0, 0⟩
+def exPacked : Packed := ⟨[1, 2, 3, 4, 5, 6, 7, 8, 0x80], 9, [10, 11, 12], [13, 14, 15], [16, 17, 18],
+  [19, 20, 21, 22, 23, 24, 25, 26, 27]⟩
+
+example : exHeader.inRange ∧ exHeader.valid = true ∧ [exPacked].length = exHeader.numPoints ∧
+    ∀ p ∈ [exPacked], p.fits exHeader := by
+  refine ⟨by simp [Header.inRange, exHeader, magicNum], by decide, rfl, ?_⟩
+  intro p hp; simp only [List.mem_singleton] at hp; subst hp
+  simp [Packed.fits, exHeader, exPacked, posBytes, shDim]
+
+end spz
 
 end C15
 end PolyVerif
